@@ -53,7 +53,7 @@ fn main() {
     ctx.extra.insert("regression_replays".into(), serde_json::json!(regress.0));
     match id {
         "C01" => { vh::router::props::c01(&mut ctx); if !ctx.failed() { vh::net::c07s::run(&mut ctx, false, true); } if !ctx.failed() { vh::net::c01n::run(&mut ctx); } }
-        "C02" => vh::router::props::c02(&mut ctx),
+        "C02" => { vh::router::props::c02(&mut ctx); if !ctx.failed() { vh::net::c02n::run(&mut ctx); } }
         "C08" => vh::router::props::c08(&mut ctx),
         "C09" => { vh::router::props::c09(&mut ctx); if !ctx.failed() { vh::net::c09n::run(&mut ctx); } }
         "C10" => { vh::router::props::c10(&mut ctx); if !ctx.failed() { vh::net::c10c::run(&mut ctx); } }
@@ -93,6 +93,7 @@ fn replay(id: &'static str, leg: &str, case: &serde_json::Value) -> i32 {
     if id == "C09" && leg == "idle-cpu-loopback" { return vh::net::c09n::replay(id, case); }
     if id == "C16" && leg == "sigint-loopback" { return vh::net::c16n::replay(id, case); }
     if id == "C16" && leg == "ps-close-during-poll" { return vh::core::replay_case::<vh::router::closepoll::Case>(id, case, 4, vh::router::closepoll::run_case); }
+    if id == "C02" && leg == "backpressure-loopback" { return vh::net::c02n::replay(id, case); }
     if id == "C12" { return vh::net::c12::replay(id, case); }
     if id == "C13" { return vh::pure::c13::replay(id, case); }
     if leg.starts_with("rr-") { return vh::router::props::replay_rr(id, leg, case); }
